@@ -86,7 +86,7 @@ func runC18(e *Engine, tier Tier) *PropRun {
 	return &PropRun{
 		Results: rs, FUC: fucList(rs),
 		Explanation: "Document mirror: functional contracts on positionToOffset (against the recursive spec sumLines: byte length of the preceding lines), utf16ToByteOffset, clampOffset, applyChange, GetWordAtPosition with loop invariants and variants; plus the zero-annotation panic-freedom sweep (index, slice, nil, type assertion, division, explicit panic) over every function of pkg/lsp, of which only the obligations in the committed baseline are claimed.",
-		NotCovered: []string{"JSON decoding of arbitrary bytes (encoding/json trusted)", "one-response-per-request over a whole conversation (history property)", "diagnostics content", "goroutine scheduling in Run"},
+		NotCovered:  []string{"JSON decoding of arbitrary bytes (encoding/json trusted)", "one-response-per-request over a whole conversation (history property)", "diagnostics content", "goroutine scheduling in Run"},
 		Assumptions: []string{"methods are not called on nil receivers", "strings.Split / strings.Builder behave as documented (assumed contracts)"},
 	}
 }
